@@ -241,6 +241,56 @@ pub fn run_scaled(ctx: Ctx, rep: &mut Report, tiny: bool) {
         }
     }
 
+    // (b3) the encoder appends: several frames encoded into ONE buffer (optionally after foreign bytes)
+    // must equal the reference concatenation, and decode back to the same frames
+    {
+        let n = if tiny { 6 } else if quick { 600 } else { 20_000 };
+        let mut batched = 0u64;
+        for i in 0..n {
+            let k = rng.usize(1, 8);
+            let prefix = if i % 3 == 0 { rng.bytes_in(1, 40) } else { Vec::new() };
+            let mut dst = BytesMut::from(&prefix[..]);
+            let mut want = prefix.clone();
+            let mut frames = Vec::new();
+            let mut ok = true;
+            for _ in 0..k {
+                let cmd = *rng.pick(&ENCODABLE);
+                let sid = rng.next() as u32;
+                let len = *rng.pick(&[0usize, 1, 7, 100, 300, 5000]);
+                let data = rng.bytes(if tiny { len.min(100) } else { len });
+                let mut codec = FrameCodec;
+                if codec.encode(Frame::with_data(cmd, sid, Bytes::from(data.clone())), &mut dst).is_err() {
+                    ok = false;
+                    break;
+                }
+                want.extend_from_slice(&refcodec::encode(u8::from(cmd), sid, &data));
+                frames.push((u8::from(cmd), sid, data));
+            }
+            rep.case(Some(hash_str(&format!("batch:{i}:{k}:{}", prefix.len()))));
+            batched += k as u64;
+            if !ok {
+                rep.violate("codec", "batched_encode", "encode_error", "encode into a non-empty buffer failed".to_string(), json!({"frames": k, "prefix": prefix.len()}));
+            } else if dst.as_ref() != &want[..] {
+                let at = dst.iter().zip(want.iter()).position(|(a, b)| a != b).unwrap_or(dst.len().min(want.len()));
+                rep.violate("codec", "batched_encode", "encoding_differs_from_reference", format!("{k} frames encoded one after the other into a buffer that already held {} bytes: {} bytes produced, reference {} bytes, first difference at offset {at}", prefix.len(), dst.len(), want.len()), json!({"frames": frames.iter().map(|f| format!("{}:{}:{}", f.0, f.1, f.2.len())).collect::<Vec<_>>(), "prefix": prefix.len()}));
+            } else {
+                // and back (skip the foreign prefix)
+                let mut buf = BytesMut::from(&dst[prefix.len()..]);
+                let mut codec = FrameCodec;
+                for f in &frames {
+                    match codec.decode(&mut buf) {
+                        Ok(Some(g)) if u8::from(g.cmd) == f.0 && g.stream_id == f.1 && g.data.as_ref() == &f.2[..] => {}
+                        other => {
+                            rep.violate("codec", "batched_encode", "decode_differs", format!("batched frames do not decode back: {:?}", other.map(|o| o.map(|g| (g.cmd, g.stream_id, g.data.len())))), json!({"frames": k}));
+                            break;
+                        }
+                    }
+                }
+            }
+        }
+        rep.add("frames_encoded_into_shared_buffers", batched);
+    }
+
     // (c) concatenations cut at every single / pair of positions, random multi-cuts, 1-byte drip
     {
         let n_streams = if tiny { 3 } else if quick { 240 } else { 6000 };
@@ -370,9 +420,9 @@ pub fn run_scaled(ctx: Ctx, rep: &mut Report, tiny: bool) {
 pub fn meta() -> CheckMeta {
     CheckMeta {
         level: "exploration",
-        rule: "differential run of FrameCodec against an independent slice-based reference codec: (a) header-only grid of command bytes x length values, (b) encode/decode round trips over 11 commands x boundary ids x boundary lengths, (b2) oversize payload attempts, (c) frame concatenations fed cut at every single position / every pair (short streams) / random multi-cuts / 1-byte drip / around every header, comparing frames, consumed count and exact leftover after every feed, (d) arbitrary and header-shaped byte strings. A case is non-trivial+distinct by its (kind, parameters or leading bytes) hash when at least one frame completes (d) or always (a-c).".into(),
+        rule: "differential run of FrameCodec against an independent slice-based reference codec: (a) header-only grid of command bytes x length values, (b) encode/decode round trips over 11 commands x boundary ids x boundary lengths, (b2) oversize payload attempts, (b3) several frames encoded one after the other into one buffer (optionally pre-filled) compared with the reference concatenation and decoded back, (c) frame concatenations fed cut at every single position / every pair (short streams) / random multi-cuts / 1-byte drip / around every header, comparing frames, consumed count and exact leftover after every feed, (d) arbitrary and header-shaped byte strings. A case is non-trivial+distinct by its (kind, parameters or leading bytes) hash when at least one frame completes (d) or always (a-c).".into(),
         assumptions: vec!["the 40-line reference codec encodes the protocol description correctly".into(), "ids beyond the boundary set and payload contents are sampled, not enumerated".into()],
-        floors: vec![("header_only_decodes", 30_000), ("roundtrips", 1000), ("fragmentations_checked", 3000), ("frames_decoded_from_arbitrary_strings", 1000)],
+        floors: vec![("header_only_decodes", 30_000), ("roundtrips", 1000), ("frames_encoded_into_shared_buffers", 1000), ("fragmentations_checked", 3000), ("frames_decoded_from_arbitrary_strings", 1000)],
         exhaustive: false,
     }
 }
